@@ -19,7 +19,14 @@ from pbv import core, impl, integ, scen, tables
 CFG = {"c1": {"max_calc_step_size_feet": 2.0}, "c2": {"max_calc_step_size_feet": 3.0, "cMinimumVelocity": 100.0}}
 DIST = {"d1": 100.0, "d2": 250.0}       # yards
 GRAPH = dict(Shots='{"s1", "s2", "s3"}', Calcs='{"c1", "c2"}', WeaponOf='[s1 |-> "w1", s2 |-> "w2", s3 |-> "w1"]',
-             AmmoOf='[s1 |-> "a1", s2 |-> "a1", s3 |-> "a2"]', Distances='{"d1", "d2"}', Requests='{"plain", "extra", "timed"}')
+             AmmoOf='[s1 |-> "a1", s2 |-> "a1", s3 |-> "a2"]', Distances='{"d1", "d2"}', Requests='{"plain", "extra", "timed"}',
+             Ops='{"Fire", "FireRaises", "ZeroRaises", "Danger", "Build", "EditTable", "FireBadTable", "Redisplay", "Zero"}')
+# focused sub-alphabets enumerated EXHAUSTIVELY by TLC (every history of the given length): one calculator, one shot, the
+# operations that compute and the caller's in-place edit - every "computation / edit / computation" sandwich occurs
+FOCUS = [dict(Shots='{"s3"}', Calcs='{"c1"}', WeaponOf='[s3 |-> "w1"]', AmmoOf='[s3 |-> "a2"]', Distances='{"d1"}', Requests='{"plain"}',
+              Ops='{"Fire", "Zero", "Danger", "EditTable"}', DirtRule='"ignored"'),
+         dict(Shots='{"s1"}', Calcs='{"c2"}', WeaponOf='[s1 |-> "w1"]', AmmoOf='[s1 |-> "a1"]', Distances='{"d2"}', Requests='{"extra"}',
+              Ops='{"Fire", "Zero", "EditTable", "Redisplay"}', DirtRule='"ignored"')]
 
 
 class Pool:
@@ -82,9 +89,15 @@ class Pool:
         [m.loadMetricUnits, m.loadMixedUnits, m.loadImperialUnits, m.PreferredUnits.defaults][salt % 4]()
 
     def edit_table(self, a):
-        """the caller rescales the drag table of ammunition `a` in place (2 % more drag)"""
-        for pnt in self.ammos[a].dm.drag_table:
-            pnt.CD = pnt.CD * 1.02
+        """the caller edits ammunition `a` IN PLACE - alternately its drag table (2 % more drag) and its powder-sensitivity
+        configuration (switch toggled, modifier assigned): the same objects, new content"""
+        am = self.ammos[a]
+        if (self.content[a] + (1 if a == "a2" else 0)) % 2 == 0:
+            for pnt in am.dm.drag_table:
+                pnt.CD = pnt.CD * 1.02
+        else:
+            am.use_powder_sensitivity = not am.use_powder_sensitivity
+            am.temp_modifier = am.temp_modifier * 1.5 + 0.015
         self.content[a] += 1
 
     def zero_raw(self):
@@ -193,7 +206,7 @@ def replay_sessions(chk, behs):
             new = pool.snapshot()
             if e["a"] == "EditTable":
                 chk.stratum("table_edited_in_place")
-                if pool.content != e["content"]:
+                if {k_: v_ for k_, v_ in pool.content.items() if k_ in e["content"]} != e["content"]:
                     raise core.MachineryError("binding: table edit counts differ from the spec's")
             elif new["rest"] != snap["rest"]:
                 chk.violation("C10.ArgumentMutated", k, det)
@@ -414,13 +427,54 @@ def run(chk: core.Check, replay=None) -> None:
                        simulate=f"num={40 if thorough else 6}", depth=7, seed=chk.seed + 10)
     behs = gen.out("BEH")
     rng.shuffle(behs)
-    behs = behs[: (900 if thorough else 110)]
+    # half of the replayed histories are the ones richest in "sandwiches": a computation, then the caller's in-place edit of
+    # the ammunition it used, then another computation with that ammunition on the SAME calculator (what a stale cache or a
+    # memo keyed on object identity gets wrong); the other half is the plain random sample
+    ammo_of = {"s1": "a1", "s2": "a1", "s3": "a2"}
+    comp = ("Fire", "Zero", "Danger", "FireRaises", "ZeroRaises")
+
+    def sandwiches(b, kind):
+        """kind 0: the edit rescales the table, 1: it reconfigures the ammunition (see Pool.edit_table)"""
+        n, cnt = 0, {"a1": 0, "a2": 0}
+        for i, e in enumerate(b):
+            if e["a"] != "EditTable":
+                continue
+            am = ammo_of[e["s"]]
+            k_ = (cnt[am] + (1 if am == "a2" else 0)) % 2
+            cnt[am] += 1
+            if k_ != kind:
+                continue
+            # strict form: for some calculator, its last computation before the edit and its first one after it use the
+            # SAME shot (same ammunition, atmosphere, weapon objects) whose ammunition was edited
+            for c_ in ("c1", "c2"):
+                bef = [x for x in b[:i] if x["a"] in comp and x["c"] == c_]
+                aft = [x for x in b[i + 1:] if x["a"] in comp and x["c"] == c_]
+                if bef and aft and bef[-1]["s"] == aft[0]["s"] and ammo_of.get(aft[0]["s"]) == am:
+                    n += 3
+                elif bef and aft and ammo_of.get(bef[-1]["s"]) == am and ammo_of.get(aft[0]["s"]) == am:
+                    n += 1
+        return n
+    quota = 900 if thorough else 110
+    rich = sorted(behs, key=lambda b: -sandwiches(b, 1))[: quota // 4]
+    rich_ids = {id(b) for b in rich}
+    rich += [b for b in sorted(behs, key=lambda b: -sandwiches(b, 0)) if id(b) not in rich_ids][: quota // 4]
+    rich_ids = {id(b) for b in rich}
+    behs = rich + [b for b in behs if id(b) not in rich_ids][: quota - len(rich)]
     chk.tlc_runs.append({"what": "Gen_Session -simulate", "behaviours": len(gen.out("BEH")), "replayed": len(behs)})
     replay_sessions(chk, behs)
+    for fi, foc in enumerate(FOCUS if thorough else FOCUS[:1]):
+        cfgf, defsf = core.consts(dict(foc, MaxOps=4 if thorough else 3))
+        genf = core.run_tlc("Gen_Session", cfgf + "SPECIFICATION GenSpec\nINVARIANT Emit\n", defs=defsf, workers=1, tags=["BEH"])
+        chk.tlc(genf, f"Gen_Session focused alphabet {fi} (exhaustive)")
+        fb = genf.out("BEH")
+        if not any(sandwiches(b, 1) >= 3 for b in fb):
+            raise core.MachineryError("focused session enumeration has no computation / ammunition edit / computation history")
+        chk.stratum("edit_between_computations_on_one_calculator")
+        replay_sessions(chk, fb)
     chk.sample({"history": behs[0]})
     threads_part(chk, thorough, rng)
     chk.require_strata(["op_Fire", "op_FireRaises", "op_Zero", "op_ZeroRaises", "op_Danger", "op_Build", "op_EditTable", "op_FireBadTable",
-                        "table_edited_in_place", "quantities_redisplayed_and_preferences_switched", "zero_written", "schedule", "schedule_equal_configurations", "schedule_different_configurations",
+                        "table_edited_in_place", "edit_between_computations_on_one_calculator", "quantities_redisplayed_and_preferences_switched", "zero_written", "schedule", "schedule_equal_configurations", "schedule_different_configurations",
                         "free_running"])
     chk.exhaustive = False
     chk.rule.append("TLC-simulated session histories of 6 operations over 3 shots (shared weapon / shared ammunition, with and without "
